@@ -103,6 +103,7 @@ def profile(name):
         p['stage_w'].update({'batcher': 7, 'buffer': 3, 'group': 0.3, 'nested_group': 0, 'gates': 0.7})
         p['p_batch_source'] = 0.5
         p['p_collect'] = 0.8
+        p['ops_w']['bad_history_removal'] = 2.0
     elif name == 'values':        # C16
         p['p_value_cb'] = 0.9
         p['p_maintainer'] = 0.9
@@ -220,6 +221,8 @@ class Gen:
             if rng.random() < self.p.get('p_cost_step', 0.2):
                 it['wo_cost_step'] = rng.choice([0.5, 1, -0.25, 2.5])
         # (else: the library's default work-order duration / capacity / cost of 0)
+        if rng.random() < self.p.get('p_insert', 0):
+            it['insert_part'] = rng.choice([1, 2, 3])     # a hand-made part added to every k-th finished batch
         if it['ct'] > 0 and not it.get('ct_script') and rng.random() < self.p.get('p_raise_finish', 0):
             it['raise_at'] = rng.choice([1, 2, 3, 5, 8])      # user code failing in the finish callback, once
         if rng.random() < self.p.get('p_raise_stop', 0):
@@ -458,11 +461,14 @@ class Gen:
             cands = [i['id'] for i in self.items if i['kind'] in ('handler', 'processor', 'buffer', 'gate', 'flow',
                                                                    'path', 'batcher', 'sink')]
             if cands:
-                self.add({'id': self.nid('AS'), 'kind': 'scheduler',
-                          'timetable': [[rng.choice([1, 2, 3, 0.5, 4]), True], [rng.choice([0.5, 1, 2, 0]), False]]
+                sid = self.add({'id': self.nid('AS'), 'kind': 'scheduler',
+                          'timetable': [[rng.choice([1, 2, 3, 0.5, 4, 0]), True], [rng.choice([0.5, 1, 2, 0]), False]]
                           + ([[rng.choice([1, 2]), True]] if rng.random() < 0.3 else []),
                           'cyclical': rng.choice([True, True, None, False]),
                           'targets': rng.sample(cands, min(len(cands), rng.choice([1, 1, 2])))})
+                tt_ = next(x for x in self.items if x['id'] == sid)['timetable']
+                if sum(d for d, _s in tt_) == 0:
+                    tt_[1][0] = 1          # (a cycle of total length 0 would never leave its instant)
         horizon = float(rng.randint(*p['horizon']))
         segs = [horizon]
         if rng.random() < p['p_split']:
